@@ -39,3 +39,5 @@ def run(ctx):
     lib_kind4.sort_last(ctx, py)
     lib_py.ll_positional(ctx, py, P, only=ps)
     lib_mem.c_lints(ctx, ctx.program(), scopes.lib_scope("C07"))
+    from . import lib_kind5
+    lib_kind5.sort_bookmark(ctx, ctx.program())
